@@ -75,7 +75,9 @@ def demo : List Op :=
 
 example : (runH demo).wire = cs ['a','b','c','<','>','x'] ++ Gen.reqAck.take 5 := by decide
 example : ((runH demo).st.queue.map (·.data)) = [Gen.reqAck] := by decide
-example : (runH demo).st.smQueue.map (·.data) = [cs ['a','b','c'], cs ['<','>'], cs ['x']] := by
+/-- the library element queued before SM was switched on is not counted (fix 'negotiation
+    elements counted under back-pressure'); the two user elements are -/
+example : (runH demo).st.smQueue.map (·.data) = [cs ['a','b','c'], cs ['x']] := by
   decide
 /-- the drop handed "de" back; "abc" was started and protected -/
 example : (step (runH (demo.take 4)).st (.drop .oldest)).2 = .dropped (some (cs ['d','e'])) := by
